@@ -76,7 +76,7 @@ def _case(rng, copt, sopt, hp, sizes, nrounds, backend, noise):
 def generate(tier, rng):
   if tier != 'search':
     fs.prestart('c01', ['pmap3', 'rbg', 'hash1'] + ([] if tier == 'quick' else ['tfp0', 'tfp1', 'x64', 'rankraise', 'hash2']))
-  n_cfg = {'quick': 32, 'thorough': 260, 'search': 400}[tier]
+  n_cfg = {'quick': 28, 'thorough': 260, 'search': 400}[tier]
   # fixed corner cases first: all-empty rounds, zero clients, drop_remainder with n < bs, every backend
   for b in BACKENDS:
     yield _case(rng, SGD(0.125), SGD(1.0), _hp(HPS[0], 1), [0, 0], 2, b, True)
